@@ -71,6 +71,17 @@ def generate(rng, tier):
                     case["late_window"] = [round(xs_all[1], 2) + 0.001, round(xs_all[-2], 2) - 0.001]
                     case["desc"]["late_window"] = True
             cases.append(case)
+    # fixed: a scale of exactly 0 (a legitimate value: it is not "absent") at either level, and a negative one
+    for mo in ({"Y": {"Scale": 0.0, "Offset": 0.25}}, {"Y": {"Scale": 0.0}}, {"Q[S(Q)-1]": {"Y": {"Scale": 0.0, "Offset": 0.1}}},
+               {"Y": {"Scale": -1.0, "Offset": 0.5}, "Q[S(Q)-1]": {"Y": {"Scale": 1.5, "Offset": -0.5}}}):
+        cfg = SL.gen_config(rng, global_window=False)
+        cfg["Merging"] = mo
+        ds = []
+        for _j in range(2):
+            d = SL.gen_dataset(rng, tier, offsets=False)
+            d["x"] = [abs(v) + 0.05 for v in d["x"]]
+            ds.append(SL.finish_dataset(d, cfg["mat"]))
+        cases.append({"cfg": cfg, "datasets": ds, "desc": {"shape": "fixed " + repr(sorted(mo)), "n_datasets": 2, "options_reassigned": False, "zero_scale": True}})
     return cases
 
 
